@@ -343,7 +343,10 @@ void CPCA(tensor *x, int scaling, size_t npc, CPCAMODEL *model)
           MatrixTranspose(Eb->m[k], Eb_T);
           NewMatrix(&Eb_T_E, Eb->m[k]->col, Eb->m[k]->col);
           MatrixDotProduct(Eb_T, Eb->m[k], Eb_T_E); /*SLOW ISNAN TEST +1SEC*/
-          local_blockvexp->data[k] = (1.f-(MatrixTrace(Eb_T_E)/tr_orig->data[k]))*100.;
+          if(tr_orig->data[k] > 0.f)
+            local_blockvexp->data[k] = (1.f-(MatrixTrace(Eb_T_E)/tr_orig->data[k]))*100.;
+          else /* a block without variance (constant columns): nothing to explain, not 0/0 */
+            local_blockvexp->data[k] = 0.f;
           DelMatrix(&Eb_T_E);
           DelMatrix(&Eb_T);
 
